@@ -501,7 +501,7 @@ def _r_context(rng, ng, nlook, chain, wild):
     return st
 
 
-def _r_gsub_subtable(rng, typ, ng, nlook, wild):
+def _r_gsub_subtable(rng, typ, ng, nlook, wild, ext=0):
     g = lambda: rng.randint(0 if wild else 1, ng - 1 + (3 if wild else 0))
     cov = _r_cov(rng, ng, wild)
     n = _cov_len(cov)
@@ -521,7 +521,7 @@ def _r_gsub_subtable(rng, typ, ng, nlook, wild):
     if typ == 6:
         return _r_context(rng, ng, nlook, True, wild)
     if typ == 7:
-        et = rng.choice([1, 2, 3, 4, 5, 6, 8])
+        et = ext if ext else rng.choice([1, 2, 3, 4, 5, 6, 8])
         return {"ext_type": et, "extension": _r_gsub_subtable(rng, et, ng, nlook, wild)}
     return {"coverage": cov, "backtrack": [_r_cov(rng, ng, wild) for _ in range(rng.randint(0, 2))],
             "lookahead": [_r_cov(rng, ng, wild) for _ in range(rng.randint(0, 2))], "subst": [g() for _ in range(n)]}
@@ -537,7 +537,7 @@ def _r_anchor(rng, none=0.2):
     return None if rng.random() < none else (rng.randint(-100, 600), rng.randint(-100, 600))
 
 
-def _r_gpos_subtable(rng, typ, ng, nlook, wild):
+def _r_gpos_subtable(rng, typ, ng, nlook, wild, ext=0):
     cov = _r_cov(rng, ng, wild)
     n = _cov_len(cov)
     if typ == 1:
@@ -571,18 +571,21 @@ def _r_gpos_subtable(rng, typ, ng, nlook, wild):
         return _r_context(rng, ng, nlook, False, wild)
     if typ == 8:
         return _r_context(rng, ng, nlook, True, wild)
-    et = rng.randint(1, 8)
+    et = ext if ext else rng.randint(1, 8)
     return {"ext_type": et, "extension": _r_gpos_subtable(rng, et, ng, nlook, wild)}
 
 
-def _r_layout(rng, ng, ntypes, subfn, tags, wild, nsets):
+def _r_layout(rng, ng, ntypes, subfn, tags, wild, nsets, mixed_ext=False):
     nlook = rng.randint(1, 5)
     lookups = []
     for _ in range(nlook):
         typ = rng.randint(1, ntypes)
         flag = rng.choice([0, 0, 0, 1, 2, 4, 8, 0x100, 0x200, 0xE])
+        # all extension subtables of a lookup share one type (the spec demands it, HarfBuzz rejects fonts that
+        # do not, and rustybuzz loops forever on "reverse chain + anything else", see the final report)
+        ext = 0 if mixed_ext else rng.choice([t for t in range(1, ntypes + 1) if t != (7 if ntypes == 8 else 9)])
         l = {"type": typ, "flag": flag,
-             "subtables": [None if wild and rng.random() < 0.05 else subfn(rng, typ, ng, nlook, wild)
+             "subtables": [None if wild and rng.random() < 0.05 else subfn(rng, typ, ng, nlook, wild, ext)
                            for _ in range(rng.randint(1, 2))]}
         if nsets and rng.random() < 0.2:
             l["mark_set"] = rng.randint(0, nsets - 1 + (1 if wild else 0))
@@ -644,7 +647,7 @@ def _r_morx_subtable(rng, ng, wild):
     return s
 
 
-def random_recipe(rng, wild=False):
+def random_recipe(rng, wild=False, mixed_ext=False):
     ng = rng.randint(6, 14)
     r = {"num_glyphs": ng, "cmap": "pua", "advances": [A(g) for g in range(ng)]}
     nsets = 0
@@ -657,9 +660,9 @@ def random_recipe(rng, wild=False):
             gd["mark_sets"] = [_r_cov(rng, ng, wild) for _ in range(nsets)]
         r["gdef"] = gd
     if rng.random() < 0.8:
-        r["gsub"] = _r_layout(rng, ng, 8, _r_gsub_subtable, ["liga", "ccmp", "calt", "rlig", "smcp"], wild, nsets)
+        r["gsub"] = _r_layout(rng, ng, 8, _r_gsub_subtable, ["liga", "ccmp", "calt", "rlig", "smcp"], wild, nsets, mixed_ext)
     if rng.random() < 0.7:
-        r["gpos"] = _r_layout(rng, ng, 9, _r_gpos_subtable, ["kern", "mark", "mkmk", "curs", "dist"], wild, nsets)
+        r["gpos"] = _r_layout(rng, ng, 9, _r_gpos_subtable, ["kern", "mark", "mkmk", "curs", "dist"], wild, nsets, mixed_ext)
     if rng.random() < 0.3:
         r["kern"] = [{"horizontal": rng.random() < 0.8, "cross": rng.random() < 0.2,
                       "pairs": [(rng.randint(1, ng - 1), rng.randint(1, ng - 1), rng.randint(-80, 80)) for _ in range(rng.randint(0, 6))]}
@@ -702,7 +705,11 @@ def smoke(nfonts, seed=1):
             d = rng.choice("lllrt")
             lines.append("shape S %s DFLT - 0 0 - - - %s" % (d, ",".join("%x:%d" % (0xE000 + g - 1, j) for j, g in enumerate(text)) or "-"))
             meta.append(("shape", rec, (d, text)))
-    p = subprocess.run([SHIM], input="\n".join(lines) + "\n", capture_output=True, text=True)
+    try:
+        p = subprocess.run([SHIM], input="\n".join(lines) + "\n", capture_output=True, text=True, timeout=120)
+    except subprocess.TimeoutExpired:
+        print("FAIL smoke: rbshim did not finish within 120 s (a shaping call hangs)")
+        return fails + 1
     out = p.stdout.split("\n")
     panics = 0
     shaped = changed = 0
@@ -731,6 +738,62 @@ def smoke(nfonts, seed=1):
     print("%s smoke: %d random fonts (1/3 malformed), %d shapes ok (%d with substitutions), %d crate panics"
           % ("FAIL" if fails else "PASS", nfonts, shaped, changed, panics))
     return fails
+
+
+# ------------------------------------------------------------------------------------------------
+# crate defects found while testing the builder (`python3 tools/fontbuild_test.py --defects` replays them against
+# the current rbshim; they are not part of PASS/FAIL).  All three fonts are tiny; the text is one or two characters.
+DEFECTS = [
+    # D6 (ensure() shrinks the out-buffer) is reachable from a well-formed GSUB: a context rule whose first lookup
+    # record is a 1->3 multiple substitution and which has a second record.  Panics for exactly this text length.
+    dict(name="D6 via plain GSUB: context rule = [multiple 3->4 5 3, then any lookup], text <2 3>",
+         expect="panic buffer.rs:1191 index out of bounds", text=[2, 3],
+         recipe={"num_glyphs": 8, "cmap": "pua", "gsub": {"features": [{"tag": "ccmp", "lookups": [0]}], "lookups": [
+             {"type": 5, "subtables": [{"format": 1, "coverage": [3], "rulesets": [[{"input": [], "lookups": [(0, 1), (0, 2)]}]]}]},
+             {"type": 2, "subtables": [{"coverage": [3], "sequences": [[4, 5, 3]]}]},
+             {"type": 1, "subtables": [{"format": 2, "coverage": [4], "subst": [6]}]}]}}),
+    # new: apply_lookup keeps `end` as usize; when recursed lookups delete more glyphs than remain before `end`,
+    # `end + delta` wraps instead of going negative, the clamp `end < match_positions[idx]` (HarfBuzz: signed int)
+    # does not fire and the final move_to(end) asserts.  ot_layout_gsubgpos.rs:931-943.
+    dict(name="apply_lookup: unsigned `end` wraps when nested lookups delete glyphs (empty Multiple sequence), text <5 5>",
+         expect="panic buffer.rs:1156 assertion failed: i <= self.out_len + (self.len - self.idx)", text=[5, 5],
+         recipe={"num_glyphs": 7, "cmap": "pua", "gsub": {"features": [{"tag": "calt", "lookups": [0]}], "lookups": [
+             {"type": 5, "subtables": [{"format": 1, "coverage": [5], "rulesets": [[{"input": [], "lookups": [(0, 1), (0, 0)]}]]}]},
+             {"type": 2, "subtables": [{"coverage": [5], "sequences": [[]]}]}]}}),
+    # new: SubstLookup::parse computes reverse = AND of all subtables; an Extension lookup mixing a reverse-chain (8)
+    # subtable with any other type is applied forward, ReverseChainSingleSubst::apply succeeds without advancing idx,
+    # and apply_forward loops forever when the substitute is covered again (1 -> 1).  HarfBuzz's sanitize rejects such
+    # lookups ("all subtables of an Extension lookup should have the same type").  ot_layout_common.rs:113-117.
+    dict(name="infinite loop: extension lookup mixing reverse-chain with another type, text <1>",
+         expect="hang", text=[1],
+         recipe={"num_glyphs": 3, "cmap": "pua", "gsub": {"features": [{"tag": "ccmp", "lookups": [0]}], "lookups": [
+             {"type": 7, "subtables": [
+                 {"ext_type": 8, "extension": {"coverage": [1], "backtrack": [], "lookahead": [], "subst": [1]}},
+                 {"ext_type": 1, "extension": {"format": 1, "coverage": [2], "delta": 0}}]}]}}),
+    # D6/D19 through morx insertion on a one character text
+    dict(name="D6 via morx insertion, text <7>", expect="panic buffer.rs:1191 index out of bounds", text=[7],
+         recipe={"num_glyphs": 9, "cmap": "pua", "morx": {"chains": [{"default_flags": 1, "features": [], "subtables": [
+             {"kind": "insertion", "feature_flags": 3, "descending": True, "logical": True, "classes": {4: 5, 1: 5, 6: 4},
+              "nclasses": 7, "states": [[3, 2, 2, 3, 1, 1, 3], [1, 3, 1, 2, 0, 1, 0], [1, 0, 1, 2, 3, 0, 3], [2, 1, 0, 0, 1, 2, 1]],
+              "entries": [{"new_state": 2, "flags": 2112, "current_insert_index": 65535, "marked_insert_index": 1},
+                          {"new_state": 1, "flags": 34849, "current_insert_index": 65535, "marked_insert_index": 0},
+                          {"new_state": 1, "flags": 18497, "current_insert_index": 1, "marked_insert_index": 0},
+                          {"new_state": 1, "flags": 18497, "current_insert_index": 0, "marked_insert_index": 65535}],
+              "insert_glyphs": [1, 3, 1, 4]}]}]}}),
+]
+
+
+def replay_defects():
+    for d in DEFECTS:
+        lines = ["font D %s" % fontbuild.hexfont(d["recipe"]),
+                 "shape D l DFLT - 0 0 - - - %s" % ",".join("%x:%d" % (cp, j) for j, cp in enumerate(T(*d["text"])))]
+        try:
+            p = subprocess.run([SHIM], input="\n".join(lines) + "\n", capture_output=True, text=True, timeout=5)
+            reply = (p.stdout.split("\n") + ["", ""])[1]
+        except subprocess.TimeoutExpired:
+            reply = "hang (no reply within 5 s)"
+        print("DEFECT %s\n    expected: %s\n    now:      %s\n    font:     %s" % (d["name"], d["expect"], reply, lines[0].split(" ")[2]))
+    return 0
 
 
 def unit():
@@ -783,6 +846,8 @@ def main(argv):
     if not ensure_shim():
         print("FAIL cannot build/find %s (run ./check --setup)" % SHIM)
         return 1
+    if only == ["--defects"]:
+        return replay_defects()
     lines, index = [], []
     for i, c in enumerate(CASES):
         if only and not any(o in c["name"] for o in only):
